@@ -163,3 +163,98 @@ Theorem C18_generated_parse_header_is_model :
     = enc_header_outcome (HeaderCodec.parse_header line).
 Proof. exact gen_parse_header_is_model. Qed.
 Print Assumptions C18_generated_parse_header_is_model.
+
+(* ---- translator tie: the definitions generated from the current source of
+   the other header codecs of poorwsgi/headers.py (gen/CodecGen.v, by
+   harness/py2v_codec.py over lib/Py.v + lib/PyParam.v + lib/PyCodec.v) are
+   the model.  The scanner of RE_BYTES_RANGE stays the model's [findall]; the
+   generated code hands it the pattern text read from the source, and
+   lib/PyCodec.v answers for the text [re_bytes_range] only.  A dict is the
+   [PList] of its (key, value) [PTuple]s, None is [PNone]
+   ([enc_range_dict]). *)
+Require Import PW.lib.PyCodec PW.gen.CodecGen PW.proofs.CodecGenEq.
+
+Theorem C18_generated_parse_range_is_model :
+  forall value : list Z,
+    gen_parse_range (PStr value)
+    = enc_outcome enc_range_dict (HeaderCodec.parse_range value).
+Proof. exact gen_parse_range_is_model. Qed.
+Print Assumptions C18_generated_parse_range_is_model.
+
+(* str(ContentRange(start, end, full, units)) for int start / end, full an
+   int or the text "*" ([enc_full]), with every number of arguments the
+   signature allows: the defaults are 0, 0, "*", "bytes" *)
+Theorem C18_generated_content_range_is_model :
+  (forall units a b full,
+     gen_content_range_4 (PInt a) (PInt b) (enc_full full) (PStr units)
+     = Py.Ok (PStr (content_range units a b full))) /\
+  (forall a b full,
+     gen_content_range_3 (PInt a) (PInt b) (enc_full full)
+     = Py.Ok (PStr (content_range (s2l "bytes") a b full))) /\
+  (forall a b,
+     gen_content_range_2 (PInt a) (PInt b)
+     = Py.Ok (PStr (content_range (s2l "bytes") a b None))) /\
+  (forall a,
+     gen_content_range_1 (PInt a)
+     = Py.Ok (PStr (content_range (s2l "bytes") a 0 None))) /\
+  gen_content_range_0 = Py.Ok (PStr (content_range (s2l "bytes") 0 0 None)).
+Proof. exact gen_content_range_is_model. Qed.
+Print Assumptions C18_generated_content_range_is_model.
+
+(* parse_negotiation / render_negotiation.  As in the model, float(), str()
+   of a q-value and the literal 1.0 are parameters: the generated
+   definitions take them as [pfloat], [pstr_v], [flit] (the latter applied
+   to the literal's text), and [encq] says how a q-value of the model is a
+   Python value.  Assumed: float(text) is the model's [float] (exceptions by
+   class name), the literal written 1.0 is [one], str(x) is x for a str and
+   the model's [str_q] for a q-value.  The result list holds the
+   (name, q) tuples ([enc_nego_list]); an item to render is (name,) or
+   (name, q) ([enc_nego_in]), in a list or a tuple. *)
+Theorem C18_generated_parse_negotiation_is_model :
+  forall (Q : Type) (float : list Z -> outcome Q) (one : Q) (encq : Q -> pv)
+         (pfloat : pv -> res pv) (flit : list Z -> pv),
+    (forall s, pfloat (PStr s) = enc_outcome encq (float s)) ->
+    flit (s2l "1.0") = encq one ->
+    forall value : list Z,
+      gen_parse_negotiation pfloat flit (PStr value)
+      = enc_outcome (enc_nego_list Q encq)
+                    (HeaderCodec.parse_negotiation Q float one value).
+Proof. exact gen_parse_negotiation_is_model. Qed.
+Print Assumptions C18_generated_parse_negotiation_is_model.
+
+Theorem C18_generated_render_negotiation_is_model :
+  forall (Q : Type) (str_q : Q -> list Z) (encq : Q -> pv)
+         (pstr_v : pv -> res pv),
+    (forall s, pstr_v (PStr s) = Py.Ok (PStr s)) ->
+    (forall q, pstr_v (encq q) = Py.Ok (PStr (str_q q))) ->
+    forall l : list (list Z * option Q),
+      gen_render_negotiation pstr_v (PList (map (enc_nego_in Q encq) l))
+      = Py.Ok (PStr (HeaderCodec.render_negotiation Q str_q l)) /\
+      gen_render_negotiation pstr_v (PTuple (map (enc_nego_in Q encq) l))
+      = Py.Ok (PStr (HeaderCodec.render_negotiation Q str_q l)).
+Proof. exact gen_render_negotiation_is_model. Qed.
+Print Assumptions C18_generated_render_negotiation_is_model.
+
+(* the date codecs: int(value), timezone.utc, the replace(tzinfo=...) /
+   timestamp() / int() chain and the text of HEADER_DATETIME_FORMAT come from
+   the source; strftime / strptime stay the model's [time_to_http] /
+   [http_to_time], which lib/PyCodec.v uses for the format text
+   [http_date_format] = "%a, %d %b %Y %X GMT" only.  [dt_aware t] is the
+   aware UTC datetime of POSIX second t; the clock of datetime.now is the
+   first argument of the generated time_to_http; a float argument is the
+   exact rational [PRat n d], which int() truncates toward zero. *)
+Theorem C18_generated_date_format_is_model :
+  (forall now t, gen_time_to_http now (PInt t)
+                 = enc_outcome PStr (time_to_http t)) /\
+  (forall now n d, gen_time_to_http now (PRat n d)
+                   = enc_outcome PStr (time_to_http (Z.quot n d))) /\
+  (forall t, gen_time_to_http (dt_aware t) PNone
+             = enc_outcome PStr (time_to_http t)) /\
+  gen_time_to_http_defaults = [PNone] /\
+  (forall t, gen_datetime_to_http (dt_aware t)
+             = enc_outcome PStr (time_to_http t)) /\
+  (forall s, gen_http_to_time (PStr s) = enc_outcome PInt (http_to_time s)) /\
+  (forall s, gen_http_to_datetime (PStr s)
+             = enc_outcome dt_aware (http_to_time s)).
+Proof. exact gen_date_format_is_model. Qed.
+Print Assumptions C18_generated_date_format_is_model.
